@@ -80,9 +80,11 @@ CLAIMED.update({
     'C13': dict(
         text='Deductive proof that the literal conversions read digits in base ten and scale by the right power of ten: ParsePercentageRatio / parsePercentageRatio '
              '(numerator = the digits before and after the point as one base-ten numeral, denominator = 10^(2+number of fractional digits), error exactly when the digits are not a numeral), '
-             'parseRatio / unsafeParseBigInt (both parts base ten), parsePortionSource per alternative; ParsePortionSpecific yields a value in [0,1]; parseVar keeps account, asset and string texts unchanged.',
+             'parseRatio / unsafeParseBigInt (both parts base ten), parsePortionSource per alternative, RatioLiteral.ToRatio (exactly numerator over denominator, at any size); ParsePortionSpecific yields a value in [0,1]; '
+             'parseVar keeps account, asset and string texts unchanged, reads a number as the base-ten numeral written and a monetary as the asset before the only blank and the base-ten amount after it (parseMonetary), at any size and sign; '
+             'String() of the six value types is the text itself / big.Int.String / big.Rat.String; the JSON encoders may call only fmt.Sprintf and those two renderings (closed `calls` list).',
         note='The meaning of numerals (numval(s, 10)) and big.Int/big.Rat arithmetic are library contracts (trusted). The round trip value -> String()/MarshalJSON -> parseVar for numbers, monetaries and portions '
-             'is NOT machine-checked (it needs a theory of decimal printing); the variable reader of portions is proved only for range and error typing.',
+             'is NOT machine-checked as one theorem (it needs numval(decstr(v)) = v, a fact about the library, and the format string of Monetary.String): both halves are proved against the same library renderings; the variable reader of portions is proved only for range and error typing.',
         ref='DESIGN.md section 5 C13'),
     'C14': dict(
         text='Panic-freedom sweep of the hand-written parser layer for every parse tree the generated recogniser can hand over (nil children after error recovery, error-recovery base contexts, '
@@ -110,7 +112,7 @@ CLAIMED.update({
         text='Panic-freedom sweep of the whole analysis package (check.go, hover.go, goto_definition.go, document_symbols.go) for every tree of the editor shape: '
              'every child may be missing, lists may hold nil entries, declarations may lack a name or an origin. Every nil dereference, nil-interface call, index, type switch default and nil-map write on every path '
              'is an obligation; the checker state (all maps exist, registered declarations have a name and a type, resolutions are of the two known kinds) is an invariant of every function; the scope flags '
-             'of capped sources are restored on exit.',
+             'of capped sources are restored on exit; the message of every diagnostic kind is declared deterministic (a range over a map below it is a failed obligation).',
         note='ASSUMED (listed in the trusted base of each run): Parse yields a tree of the editor shape - no interface field holds a nil pointer, and six children the analysis dereferences without a guard are present '
              '(call name, declaration type, expression of an account source/destination, address of an overdraft source) - a fact about ANTLR error recovery (T3), backed by a 6000-input differential probe during development, not proved. '
              'Termination, diagnostic ranges lying inside the document, and determinism (map iteration order of the unused-variable loop) are not decided by these contracts.',
@@ -121,14 +123,16 @@ CLAIMED.update({
     'C19': dict(
         text='Deductive proof of the language-server state machine as a data structure against an abstract view: every stored document carries the analysis of the text stored with it (invariant of every handler); '
              'updateDocument has a whole-view postcondition (the named document gets the new text and its analysis, every other document is unchanged); Handle: didOpen stores the text it carries, didChange stores the LAST content change, '
-             'every other request changes no document; hover / definition / symbols modify nothing, answer nil for an unknown document, and definition answers with the URI that was asked.',
+             'every other request changes no document; hover / definition / symbols modify nothing, answer nil for an unknown document, and definition answers with the URI that was asked; '
+             'navigation, as far as stated: hoverOnExpression returns exactly the variable whose range holds the cursor (and nothing for other leaves), an account source and the first member of an in-order source give their variable under the cursor, '
+             'the checker resolves every declared variable it visits (also the portion variable of a destination share) and never forgets a resolution.',
         note='"the analysis of a text" is the relation analysed(result, text) defined by the (assumed, definitional) postcondition of analysis.CheckSource; determinism of the analysis is not proved. '
-             'The content of hover texts and that hover/definition pick the variable under the cursor (navigation correctness) are NOT proved: only the node-or-nil and right-document parts are. JSON decoding of the request is an arbitrary value of the parameter type. '
+             'The content of hover texts and navigation through every nesting (all members of a block, destinations, function arguments) are NOT proved. JSON decoding of the request is an arbitrary value of the parameter type. '
              'Interleavings do not arise: the server handles one request at a time.',
         ref='DESIGN.md section 5 C19'),
     'C20': dict(
         text='Deductive proof of the exit behaviour of the two commands: every os.Exit in internal/cmd carries a non-zero status; `check` returns normally only when the number of error-severity diagnostics it obtained from GetErrorsCount on the analysed file is zero; '
-             '`run` returns normally only when parsing produced no error and RunProgram returned no error (every failure path ends in os.Exit).',
+             '`run` returns normally only when parsing produced no error and RunProgram returned no error (every failure path ends in os.Exit); the JSON encoders of values use only the library renderings their String() methods use (closed `calls` list).',
         note='Not proved: what is printed (diagnostic lines, JSON rendering - encoding/json and fmt are outside the model), the equivalence of the three input channels (the readers are trusted contracts that only frame which option fields they set), '
              'and that GetErrorsCount counts error severities (its result is a named, uninterpreted count).',
         ref='DESIGN.md section 5 C20'),
